@@ -14,6 +14,7 @@ import CallbagModel.Closed.LinearCost
 import CallbagModel.Closed.LinearInfCost
 import CallbagModel.Closed.Prog3Cost
 import CallbagModel.Closed.Prog3CostTake
+import CallbagModel.Closed.Prog3CostFlat
 /-!
 # C06 — iterable programming: pull pipelines compute the corresponding list function
 
@@ -346,5 +347,17 @@ theorem C06_program_cost_take (p : Closed.Prog3) (hok : p.ok) (he : p.lazy) :
       (Closed.thenM p.toM Closed.forEachM).nexts s.st ≤ (sem p.toPipe none).2 ∧
       (s.stack = [] → s.tr ≠ [] → (Closed.thenM p.toM Closed.forEachM).nexts s.st = (sem p.toPipe none).2) :=
   Closed.prog3_cost_take p hok he
+
+/-- … and with `flatten(map(…))` under a `take` (and as a member of a `concat!` under a `take`): `Prog3.lazy2` ⊇ `Prog3.lazy` ⊇
+`Prog3.eager` (`Inv/FlatDemand.lean`, `Inv/FlatDemandCost.lean`: the two demand invariants of the flatten machine — at most one upstream
+is being pulled, inner `j` only while the sink wants more than the first `j − 1` inners deliver, the outer only while the inners created
+so far have not met the demand).  Example: `take 4 (concat!(flatRep 2 (map (·*10) (src [1,5])), src [7]))` advances the iterators exactly
+7 times and never touches `src [7]`.  Still outside: a `take` over a join one of whose members ends by itself (contains a `take`) — the
+refuted rule (`Closed/Prog3Cost.lean`). -/
+theorem C06_program_cost_flat (p : Closed.Prog3) (hok : p.ok) (he : p.lazy2) :
+    ∀ s, SReach (Closed.thenM p.toM Closed.forEachM).M s →
+      (Closed.thenM p.toM Closed.forEachM).nexts s.st ≤ (sem p.toPipe none).2 ∧
+      (s.stack = [] → s.tr ≠ [] → (Closed.thenM p.toM Closed.forEachM).nexts s.st = (sem p.toPipe none).2) :=
+  Closed.prog3_cost_flat p hok he
 
 end Cb.Thm
